@@ -340,6 +340,10 @@ structure Sound (f : Nat) : Prop where
   prim : ∀ ts n s', AllCanon ts → primaryExpression f (stOf ts) = .ok (n, s') →
     ∃ pt rest, s' = stOf rest ∧ ts = flat false pt ++ rest ∧ wp false pt = true ∧ erase pt = n ∧ llevel pt = top ∧
       okAfter (rlevel pt) rest
+  primR : ∀ ts n s', AllCanon ts → ((stOf ts).curr.type = .arrayWildcard ∨ (stOf ts).curr.type = .filter) →
+    primaryExpression f (stOf ts) = .ok (n, s') →
+    ∃ pt rest, s' = stOf rest ∧ ts = flat true pt ++ rest ∧ wp true pt = true ∧ erase pt = n ∧ llevel pt = top ∧
+      okAfter (rlevel pt) rest
   proj : ∀ ts o s', AllCanon ts → projection f projectionPrecedence (stOf ts) = .ok (o, s') →
     ∃ rhs rest, s' = stOf rest ∧ ts = flat true rhs ++ rest ∧ RhsOK rhs ∧ o = optNode rhs (erase rhs) ∧
       okAfter lvlProj rest
